@@ -5,6 +5,7 @@
 //
 //	conf.go   configuration mixes (file + database), the reference merge function, rendering
 //	parte.go  part E: every mix through the real loadTasks, compared with the reference
+//	partg.go  part G: one long-lived config.Root through several generations (store, restart, restart, ...)
 //	parts.go  part S: real Manager.Run / Restart / runTask / web.Handler.SaveIntegration under the
 //	          controlled scheduler; thread attribution (generation, runner, pair), the oracle
 //	dfs.go    the depth-first explorer (copy of package explore + slicing of one job over workers
